@@ -40,24 +40,43 @@ def unit():
     m = P.method("__exit__", {"exc_type": ANY, "exc_val": ANY, "exc_tb": ANY}, locals={"p": RefS("BaseFunctorWorker")})
     m.requires("self._manager != None and wfpool(self) and self._work_queue.stops >= 0")
     m.requires(slots0)
-    m.modifies("self._work_queue.stops", "BaseFunctorWorker.pjoined[*]", "BaseFunctorWorker.exitcode[*]")
+    m.modifies("self._work_queue.stops", "self.served", "BaseFunctorWorker.pjoined[*]", "BaseFunctorWorker.exitcode[*]", "BaseFunctorWorker.running[*]")
+    keep = ("same(self.procs, old(self.procs)) and same(self._work_queue, old(self._work_queue)) and wfpool(self) and " + slots0
+            + " and self._work_queue.chan.sent == old(self._work_queue.chan.sent) and same(self._work_queue.chan.chunk, old(self._work_queue.chan.chunk))")
+    none_running = "forall(k, 0, len(self.procs), not self.procs[k].running, trigger=self.procs[k])"
+    # loop 1 runs once per worker that is running when the context is left (n = len(_seq1)); `served`: that many tokens were sent, or
+    # nobody is running any more (a put is retried only while somebody can still read the queue)
     l1 = m.loop(1)
-    l1.invariant("same(self.procs, old(self.procs)) and same(self._work_queue, old(self._work_queue)) and wfpool(self) and " + slots0
-                 + " and self._work_queue.chan.sent == old(self._work_queue.chan.sent) and same(self._work_queue.chan.chunk, old(self._work_queue.chan.chunk))")
-    l1.invariant("self._work_queue.stops == old(self._work_queue.stops) + _i1", "one-stop-token-per-iteration")
-    l1.invariant("same(self._work_queue.chan, old(self._work_queue.chan))") if False else None
-    l2 = m.loop(2)
-    l2.invariant("same(self.procs, old(self.procs)) and same(self._work_queue, old(self._work_queue)) and wfpool(self) and " + slots0
-                 + " and self._work_queue.chan.sent == old(self._work_queue.chan.sent) and same(self._work_queue.chan.chunk, old(self._work_queue.chan.chunk))")
-    l2.invariant("self._work_queue.stops == old(self._work_queue.stops) + len(self.procs)")
-    l2.invariant("forall(k, 0, _i2, self.procs[k].pjoined or not is_none(self.procs[k].exitcode), trigger=self.procs[k])")
-    m.ensures("self._work_queue.stops == old(self._work_queue.stops) + len(self.procs)", "exactly-one-stop-token-per-worker")
+    l1.invariant(keep)
+    l1.invariant("len(_seq1) <= len(self.procs) and implies(len(_seq1) == 0, %s)" % none_running, "one-round-per-running-worker")
+    l1.invariant("self._work_queue.stops == old(self._work_queue.stops) + _i1 or (%s)" % none_running,
+                 "a-token-per-round-unless-nobody-is-running-any-more")
+    l1.invariant("old(self._work_queue.stops) <= self._work_queue.stops and self._work_queue.stops <= old(self._work_queue.stops) + _i1")
+    l2 = m.loop(2).environment_driven()       # retry while somebody is running and the bounded queue is full
+    l2.invariant(keep)
+    l2.invariant("1 <= _i1 and _i1 <= len(_seq1) and len(_seq1) <= len(self.procs)")
+    l2.invariant("self._work_queue.stops == old(self._work_queue.stops) + _i1 - 1 or (%s)" % none_running)
+    l2.invariant("old(self._work_queue.stops) <= self._work_queue.stops and self._work_queue.stops <= old(self._work_queue.stops) + _i1 - 1")
+    m.at_call("before", "join", ghost="self.served = (self._work_queue.stops == old(self._work_queue.stops) + len(_seq1) or (%s))" % none_running)
+    l3 = m.loop(3)
+    l3.invariant(keep)
+    l3.invariant("self._work_queue.stops == old(self._work_queue.stops) + len(_seq1) or (%s)" % none_running,
+                 "one-stop-token-per-running-worker-was-sent(or-nobody-is-running)")
+    l3.invariant("old(self._work_queue.stops) <= self._work_queue.stops and self._work_queue.stops <= old(self._work_queue.stops) + len(self.procs)")
+    l3.invariant("forall(k, 0, _i3, self.procs[k].pjoined or not is_none(self.procs[k].exitcode), trigger=self.procs[k])")
+    m.ensures("old(self._work_queue.stops) <= self._work_queue.stops and self._work_queue.stops <= old(self._work_queue.stops) + len(self.procs)",
+              "at-most-one-stop-token-per-worker")
     m.ensures("forall(k, 0, len(self.procs), self.procs[k].pjoined or not is_none(self.procs[k].exitcode), trigger=self.procs[k])",
               "every-worker-was-joined-unless-it-had-already-exited(no-worker-left-running-without-join_timeout)")
+    # while the context is left the workers are NOT frozen: a running worker may end at any moment (it consumed a stop token, or it was
+    # retiring); a process that has ended stays ended.  This is the environment step of this unit (there is no feeder thread here).
+    U.var("wk", RefS("BaseFunctorWorker"))
+    U.interfere("FunctorPool", when="True", modifies=["BaseFunctorWorker.running[*]"],
+                ensures=["forall(wk, implies(wk.running, old(wk.running)), trigger=wk.running)"])
     for fn in ("__enter__", "until_all_ready", "__exit__"):
         # no imap call is in progress while the context is entered / left / waited on (every call was fully consumed): the feeder
         # thread of a call does not exist, so its environment step is not applied here
-        P.methods[fn].quiescent = True
+        P.methods[fn].quiescent = (fn != "__exit__")
         P.methods[fn].requires("not self._sending_work", "no-call-in-progress(the-feeder-of-the-last-call-is-done)")
     U.verify("FunctorPool", "__enter__")
     U.verify("FunctorPool", "until_all_ready")
